@@ -122,6 +122,20 @@ class MinMaxLengthType(DiagCodedType):
                 f"(Is: {data_length} bytes.)", EncodeError)
             data_length = self.max_length
 
+        # ensure that the termination delimiter is not encountered
+        # within the encoded value: the decoder stops at the first
+        # correctly aligned termination sequence behind the minimum
+        # length, i.e., such a value cannot be represented
+        termination_seq = self.__termination_sequence()
+        if termination_seq:
+            terminator_pos = raw_value.find(termination_seq, self.min_length)
+            while terminator_pos >= 0 and terminator_pos % len(termination_seq) != 0:
+                terminator_pos = raw_value.find(termination_seq, terminator_pos + 1)
+            if terminator_pos >= 0:
+                odxraise(
+                    f"The value {internal_value!r} contains the termination "
+                    f"sequence of its MIN-MAX-LENGTH type", EncodeError)
+
         encode_state.emplace_atomic_value(
             internal_value=raw_value,
             used_mask=None,
@@ -130,9 +144,6 @@ class MinMaxLengthType(DiagCodedType):
             base_type_encoding=None,
             is_highlow_byte_order=True,
         )
-
-        # TODO: ensure that the termination delimiter is not
-        # encountered within the encoded value.
 
         odxassert(
             self.termination != Termination.END_OF_PDU or encode_state.is_end_of_pdu,
